@@ -441,6 +441,15 @@ class TermAnalysis(Analysis):
             cur = self.ev(self._load(node.target), st)
             v = ("bin", OPS[type(node.op)], cur, self.ev(node.value, st))
             self.assign(node.target, v, st)
+        elif isinstance(node, ast.Expr) and isinstance(node.value, ast.Call) and isinstance(node.value.func, ast.Name) and node.value.func.id == "setattr" \
+                and len(node.value.args) == 3 and "setattr" not in st.env:
+            # setattr(obj, "<constant name>", v) is obj.<name> = v
+            nm = self.ev(node.value.args[1], st)
+            k0 = self.key_of(node.value.args[0])
+            v = self.ev(node.value.args[2], st)
+            if k0 and is_const(nm) and isinstance(nm[1], str) and nm[1].isidentifier():
+                st.env[f"{k0}.{nm[1]}"] = v
+            self.ev(node.value, st)
         elif isinstance(node, ast.Expr):
             self.ev(node.value, st)
         elif isinstance(node, ast.Return):
@@ -491,6 +500,9 @@ class TermAnalysis(Analysis):
             if value[0] in ("tuple", "list") and len(value[1]) == len(target.elts):
                 for t, v in zip(target.elts, value[1]):
                     self.assign(t, v, st)
+            elif is_const(value) and isinstance(value[1], (tuple, list)) and len(value[1]) == len(target.elts):
+                for t, v in zip(target.elts, value[1]):
+                    self.assign(t, const(v), st)
             else:
                 for i, t in enumerate(target.elts):
                     self.assign(t, field_read(value, i) or ("item", value, i), st)
@@ -716,6 +728,13 @@ class TermAnalysis(Analysis):
                         None if sl.step is None else const(sl.step))
             if base[0] in ("tuple", "list") and is_const(idx) and isinstance(idx[1], int) and -len(base[1]) <= idx[1] < len(base[1]):
                 return base[1][idx[1]]
+            if is_const(base) and isinstance(base[1], (tuple, list)) and 2 <= len(base[1]) <= 4 and not is_const(idx) \
+                    and all(isinstance(x, (int, float, bool, str, bytes, type(None))) for x in base[1]):
+                # TABLE[i] for a small constant table: the chain  TABLE[0] if i == 0 else TABLE[1] ... (an index outside the table raises)
+                out = const(base[1][-1])
+                for k_ in range(len(base[1]) - 2, -1, -1):
+                    out = ("ite", ("cmp", "==", idx, const(k_)), const(base[1][k_]), out)
+                return out
             if is_const(idx) and isinstance(idx[1], int):
                 fr = field_read(base, idx[1])
                 if fr is not None:
@@ -867,6 +886,8 @@ class TermAnalysis(Analysis):
                         parts.append(t[2][k])
                         k += 1
                 return ("fstr", tuple(parts))
+        if t[0] == "call" and t[1] == ("ext", "math.trunc") and len(t[2]) == 1 and not t[3]:
+            t = ("call", ("ext", "int"), t[2], ())            # on numbers math.trunc(x) is int(x)
         if t[0] == "call" and t[1] == ("ext", "int") and len(t[2]) == 1 and len(t[3]) == 1 and t[3][0][0] == "base":
             return ("call", t[1], (t[2][0], t[3][0][1]), ())                # int(x, base=b) is int(x, b)
         if t[0] == "call" and t[1] == ("ext", "dict") and not t[2] and t[3] and all(isinstance(k, str) for k, _v in t[3]):
@@ -1171,6 +1192,9 @@ class TermEngine(Engine):
                 elif isinstance(n, ast.If):
                     if not (pure(n.body) and pure(n.orelse)):
                         return False
+                elif isinstance(n, ast.Expr) and isinstance(n.value, ast.Call) and isinstance(n.value.func, ast.Name) and n.value.func.id == "setattr" \
+                        and len(n.value.args) == 3:
+                    continue            # table-driven attribute stores: setattr(self, name, value) with name drawn from the table
                 elif not isinstance(n, ast.Pass):
                     return False
             return True
